@@ -7,7 +7,7 @@ triangle of axis 3 is not listed, on the y leg `(x, y−1, z)` for axis 2 and fo
 triangle of axis 3 is listed (that of axis 2 is not), on the x leg `(x+1, y, z)` for axis 0 in the
 last column, on the z leg `(x, y, z∓1)` for the other triangles of axis 0; the lower triangles
 `(0, 2, 2, z)` along the hole edge `x = y = 3` have the three-qubit probe
-`X(3,2,z) X(4,2,z−1) X(3,2,z−2)`.  Rank: lexicographic in `(x, y, axis order 1 < 2 < 3 < 0, z)`.
+`X(3,2,z) X(4,2,z−1) X(3,2,z−2)` (for `Lx ≥ 4`) or `X(2,3,z) X(2,4,z−1) X(2,3,z−2)` (for `Lx = 3`).  Rank: lexicographic in `(x, y, axis order 1 < 2 < 3 < 0, z)`.
 Cube `(x, y, z)`: probe `Z` on the first of its lower edges `(x, y∓1, z−1)`, `(x∓1, y, z−1)` that is a
 qubit, else on an upper edge `(x, y∓1, z+1)`; the cubes of the top layer `z = 2Lz−3` use an upper
 edge; rank `z`, and 0 for the top layer.
@@ -25,7 +25,7 @@ open Panqec.Planar3DCode (inE inO inE2 inO1)
 
 /-- the lower axis-0 triangles along the hole edge `x = y = 3` that are kept -/
 def QC (Lx Ly Lz : Nat) (x y z : Int) : Prop :=
-  x = 2 ∧ y = 2 ∧ z % 4 = 0 ∧ 8 ≤ z ∧ z ≤ 2 * (Lz : Int) - 6 ∧ 4 ≤ Lx ∧ 4 ≤ Ly
+  x = 2 ∧ y = 2 ∧ z % 4 = 0 ∧ 8 ≤ z ∧ z ≤ 2 * (Lz : Int) - 6 ∧ ((4 ≤ Lx ∧ 4 ≤ Ly) ∨ (Lx = 3 ∧ 5 ≤ Ly))
 
 instance (Lx Ly Lz : Nat) (x y z : Int) : Decidable (QC Lx Ly Lz x y z) := by unfold QC; infer_instance
 
@@ -83,7 +83,8 @@ def probeKeys (Lx Ly Lz : Nat) (a x y z : Int) : List Coord :=
   else if a = 1 then (if PT Lx Ly Lz 3 x y z then [[x, y - 1, z]] else [[x - 1, y, z]])
   else if x = 2 * (Lx : Int) - 2 then [[x + 1, y, z]]
   else if (x + y + z) % 4 = 2 then [[x, y, z - 1]]
-  else if QC Lx Ly Lz x y z then [[3, 2, z], [4, 2, z - 1], [3, 2, z - 2]]
+  else if QC Lx Ly Lz x y z then
+    (if 4 ≤ Lx then [[3, 2, z], [4, 2, z - 1], [3, 2, z - 2]] else [[2, 3, z], [2, 4, z - 1], [2, 3, z - 2]])
   else [[x, y, z + 1]]
 
 /-- the qubit of the probe of a cube -/
